@@ -411,3 +411,25 @@ func H15Permute() {
 		}
 	}
 }
+
+// H15Procs: the output is the same for every GOMAXPROCS, and the cell computation terminates
+// for every GOMAXPROCS (the fan-out is limited by a channel whose capacity is derived from
+// it). Goroutines are sequentialised in the engine, so this says nothing about
+// interleavings; it does decide whether the limiter can block the spawning goroutine forever.
+func H15Procs() {
+	n := vndParam("results")
+	dims := vndParam("dims")
+	rs := make([]h14Res, n)
+	order := make([]int, n)
+	for i := range rs {
+		rs[i] = h14Symbolic(i, dims)
+		order[i] = i
+	}
+	ref := h14CSV(h14Run(h14Make(0, 0), rs, order))
+	procs := []int{1, 2, 3, 8}[vndChoice("procs", 4)]
+	vndGOMAXPROCS(procs)
+	got := h14CSV(h14Run(h14Make(0, 0), rs, order))
+	vndGOMAXPROCS(4)
+	vndReach("h15:procs")
+	vndAssert(got == ref, "output-independent-of-gomaxprocs")
+}
